@@ -342,15 +342,17 @@ def run(tier="quick", seed=0):
                 ev = execute(CphotAng, inp, orc, "scripted", fail, w, steps=list(steps))
             traces.append(ev)
         # all P! completion orders x failure positions, other partition sizes, real schedulers (stand-in kernel)
-        for n, psz in ([(450, None), (250, 64), (23, 7)] if thorough else [(250, None), (23, 7)]):
+        # 1130 events: MORE THAN TEN partitions of the code's size (anything that orders partitions by a label or key rather than by index)
+        for n, psz in ([(450, None), (250, 64), (23, 7), (1130, None), (2307, None)] if thorough else [(250, None), (23, 7), (1130, None)]):
             inp = make_inputs(n, seed + 7 * n)
             orc = Oracle(CphotAng, inp)
             P = -(-n // (psz or 100))
-            perms = list(itertools.permutations(range(P)))
             fails = [0, 1, min(n, (psz or 100)), min(n, (psz or 100) + 1), n, (min(n, (psz or 100)), n)]
-            if len(perms) > 120:
+            if P <= 5:
+                perms = list(itertools.permutations(range(P)))
+            else:
                 rng = np.random.default_rng(seed)
-                perms = [tuple(rng.permutation(P)) for _ in range(60 if thorough else 12)]
+                perms = [tuple(range(P)), tuple(reversed(range(P)))] + [tuple(rng.permutation(P)) for _ in range(60 if thorough else (4 if P > 10 else 12))]
             for perm in perms:
                 for fail in (fails if thorough or perm in (perms[0], perms[-1]) else [0]):
                     traces.append(execute(CphotAng, inp, orc, "ordered", fail, 1, order=list(perm), psize_override=psz))
@@ -444,6 +446,22 @@ def run(tier="quick", seed=0):
             return stage(b, a, E, la, lo, cloudf=cloud)
     for mode, w in (("synchronous", 1), ("threads", 4)):
         traces.append(execute(CphotAng, inp_e, orc_e, mode, 0, w, obj=StageCall(), cloud=site_cloud, force_opaque=True))
+    # events that fail BY THEMSELVES, each in its own way (whatever exception type the kernel meets for them: NaN angle / altitude / energy / site,
+    # a vanishing energy, a decay above the simulated atmosphere), at the first, a middle and the last position of a small batch:
+    # an event whose one-at-a-time evaluation raises must make the batch call raise (the oracle decides which of them do)
+    nb = 7
+    base = make_inputs(nb, seed + 61)
+    bad_kinds = [(0, np.nan), (1, np.nan), (2, np.nan), (3, np.nan), (2, 1e-9), (2, 0.0), (1, 70.0), (1, 64.5), (0, 0.0), (0, -0.1)]
+    for col, val in bad_kinds:
+        for pos in (0, nb // 2, nb - 1):
+            inp_b = tuple(x.copy() for x in base)
+            inp_b[col][pos] = val
+            try:
+                orc_b = Oracle(CphotAng, inp_b, cloud=lambda la, lo: -np.inf)
+            except BaseException:
+                continue
+            for mode, w in ((("synchronous", 1), ("threads", 4)) if pos == nb // 2 else (("synchronous", 1),)):
+                traces.append(execute(CphotAng, inp_b, orc_b, mode, 0, w, cloud=lambda la, lo: -np.inf))
     # empty batch with the real kernel
     e0 = make_inputs(0, 1)
     traces.append(execute(CphotAng, e0, Oracle(CphotAng, e0), "synchronous", 0, 1))
